@@ -2247,6 +2247,13 @@ def h_index(ev, args, kwargs, fr, node):
 
 def h_isinstance(ev, args, kwargs, fr, node):
     v, t = args
+    from .symeval import PhiV
+    if isinstance(v, PhiV):
+        a_ = h_isinstance(ev, [v.a, t], kwargs, fr, node)
+        b_ = h_isinstance(ev, [v.b, t], kwargs, fr, node)
+        if isinstance(a_, BoolV) and isinstance(b_, BoolV) and a_.b == b_.b:
+            return a_
+        return ev.ite(v.cond, a_, b_)
     ts = t.items if isinstance(t, TupleV) else [t]
     res = False
     for c in ts:
@@ -2526,6 +2533,11 @@ def h_can_cast(ev, args, kwargs, fr, node):
             return BoolV(bool(np.can_cast(np.dtype(getattr(np, a)), np.dtype(getattr(np, b)), casting=casting.s)))
         except Exception:
             pass
+    if b in NP_DTYPES and isinstance(casting, StrV) and casting.s == "safe" and (src is None or (isinstance(src, ExtV) and src.dotted.endswith(":unknown"))):
+        # source dtype not tracked (the result of transforms whose dtype the evaluator does not follow): as for
+        # .astype(..., casting="safe") of such a value, the safe cast is assumed to be possible
+        ev.trace.append(("assumed-castable", b))
+        return BoolV(True)
     ev.unsupported("np.can_cast between dtypes the evaluator does not know", node, fr)
 
 
@@ -2806,6 +2818,9 @@ class StackV(Val):
     def map(self, f):
         st = StackV([f(x) for x in self.items], self.axis, self.backend)
         st.shape, st.dtype = self.shape, self.dtype
+        dts = {getattr(getattr(x, "dtype", None), "dotted", None) for x in st.items}
+        if len(dts) == 1 and None not in dts:
+            st.dtype = st.items[0].dtype        # the components know their dtype (e.g. after .real): it is the stack's
         return st
 
     def __repr__(self):
@@ -3596,11 +3611,13 @@ def call_ext(ev, fn: ExtV, args, kwargs, fr, node):
         return call_ext(ev, uf, args, kwargs, fr, node)
     if d.startswith("ufunc:"):
         _, name, nin, nout = d.split(":")
-        ev.trace.append(("ufunc-call", name, list(args), dict(kwargs), node))
+        ev.trace.append(("ufunc-call", name, list(args), {k_: (TupleV(list(v_.items)) if isinstance(v_, TupleV) else v_) for k_, v_ in kwargs.items()}, node))
         outs = kwargs.get("out")
         res = []
         for k in range(int(nout)):
             given = outs.items[k] if isinstance(outs, TupleV) and k < len(outs.items) else NONE
+            if k == 0 and outs is not None and not isinstance(outs, (TupleV, NoneV)):
+                given = outs            # out=array is shorthand for out=(array,)
             if not isinstance(given, NoneV):
                 if isinstance(given, Num) and given.backend == "dask":
                     # Dask does not write into an out= array: it re-points the array object at the result (graph, chunks, meta --
@@ -3612,6 +3629,16 @@ def call_ext(ev, fn: ExtV, args, kwargs, fr, node):
                     if rd is not None:
                         given.dtype = rd
                     ev.trace.append(("dask-out-rebound", name, given))
+                elif isinstance(given, Num) and given.tag != "unit":
+                    # NumPy writes the result into the given array and hands that very array back: same object, new contents
+                    # (values are immutable in this evaluator: the written array is a new value that replaces the old one in
+                    # every binding of the calling frame, exactly as for an in-place operator)
+                    exprs = [a.expr if isinstance(a, Num) else sp.Symbol("arg_" + type(a).__name__) for a in args]
+                    written = given.like(sp.Function(f"Ufunc_{name}_{k}")(*exprs), unit=given.unit, dtype=given.dtype)
+                    if fr is not None and getattr(fr, "env", None) is not None:
+                        ev._rebind_aliases(fr, given, written)
+                    ev.trace.append(("out-written", name, given, written))
+                    given = written
                 res.append(given)       # numpy returns the given out array itself
             else:
                 exprs = [a.expr if isinstance(a, Num) else sp.Symbol("arg_" + type(a).__name__) for a in args]
